@@ -97,12 +97,12 @@ def stream_replay(rep, wd, tier, seed):
 
 
 def _replay_faults(args):
-    wd, k, slack = args
+    wd, k, slack, pairvals = args
     # slack = P: the last block holds fill only (data ends on a block boundary); content all-PAD for even k
     base = render_blocks((b'@' * (k * P) if k % 2 == 0 else CODE[:k * P])[:k * P - slack], k)
     cfg = write_cfg(os.path.join(wd, 'UnblockEnum-%d-%d.cfg' % (k, slack)),
-                    'CONSTANTS P = %d T = %d PAD = 64 K = %d Slack = %d\nSPECIFICATION Spec\nINVARIANT RoundInv\n'
-                    'CHECK_DEADLOCK FALSE\n' % (P, T, k, slack))
+                    'CONSTANTS P = %d T = %d PAD = 64 K = %d Slack = %d PairVals = {%s}\nSPECIFICATION Spec\nINVARIANT RoundInv\n'
+                    'CHECK_DEADLOCK FALSE\n' % (P, T, k, slack, pairvals))
     bad, count = [], 0
 
     def on_line(line):
@@ -111,6 +111,9 @@ def _replay_faults(args):
         count += 1
         if kind == 'cut':
             f = base[:x]
+        elif kind == 'pair':
+            i = (x - 1) * (P + T) + P
+            f = base[:i] + bytes([t, v]) + base[i + 2:]
         else:
             i = (x - 1) * (P + T) + P + t - 1
             f = base[:i] + bytes([v]) + base[i + 1:]
@@ -130,7 +133,12 @@ def _replay_faults(args):
 
 def fault_replay(rep, wd, tier):
     ks = (1, 2, 3, 4) if tier == 'thorough' else (1, 2)
-    jobs = [(wd, k, 7 * k) for k in ks] + [(wd, k, P) for k in ks if k > 1]
+    # both trailer bytes replaced: every equal pair, and every ordered pair over these values (thorough: over all 256
+    # values on the one-block file)
+    hazardous = '0, 10, 13, 32, 36, 48, 63, 64, 65, 124, 192, 255'
+    jobs = [(wd, k, 7 * k, hazardous) for k in ks] + [(wd, k, P, hazardous) for k in ks if k > 1]
+    if tier == 'thorough':
+        jobs.append((wd, 1, 3, ', '.join(str(v) for v in range(256))))
     with ProcessPoolExecutor(len(jobs)) as ex:
         outs = list(ex.map(_replay_faults, jobs))
     ks = [j[1] for j in jobs]
@@ -142,7 +150,7 @@ def fault_replay(rep, wd, tier):
             rep.violation(key, b or {'more': 'suppressed'})
         rep.tlc_runs.append({'run': 'UnblockEnum K=%d' % k, 'cases': o['count']})
     rep.sample({'fault_enumeration': 'unblock_1014 on a %s-block file: every cut 0..len, every value of every '
-                'trailer byte' % (ks,)})
+                'trailer byte, both trailer bytes replaced by every equal pair and every pair of hazardous values' % (ks,)})
 
 
 def _drive_traces(args):
@@ -175,13 +183,18 @@ def _drive_traces(args):
         sizes = []
         for _ in range(r.choice((1, 2, 3, 5, 8))):
             sizes.append(r.choice((0, 1, 2, 4, 4, P - 1, P, P + 1, 2 * P, r.randrange(1, 60), r.randrange(1, 3 * P))))
+        if tid % 5 == 1:
+            # a request far larger than any file ("give me everything"): the largest index, 2^63 - 1, 2^40, 2^31
+            import sys
+            sizes[r.randrange(len(sizes))] = r.choice((sys.maxsize, 2 ** 63 - 1, 1 << 40, 1 << 31, (1 << 31) - 1))
         ev = []
+        clamp = lambda n: min(n, 2000000000)      # TLC integers are 32 bit; any request >= what remains means "all"
         try:
             outs = drv.run_unblocker(f, sizes)
             for n, o in zip(sizes, outs):
-                ev.append({'op': 'read', 'n': n, 'bytes': list(o)})
+                ev.append({'op': 'read', 'n': clamp(n), 'bytes': list(o)})
         except BaseException as ex:  # noqa
-            ev.append({'op': 'read', 'n': sizes[0], 'bytes': [-1], '_exc': drv.exc_outcome(ex)['cls']})
+            ev.append({'op': 'read', 'n': clamp(sizes[0]), 'bytes': [-1], '_exc': drv.exc_outcome(ex)['cls']})
         traces.append({'tid': tid, 'kind': 'unblocker', 'file': list(f), 'events': ev,
                        '_desc': 'Unblock1014 over %d-byte input (%s), reads %s' % (len(f), style, sizes)})
     return traces
